@@ -64,7 +64,7 @@ def main():
     jobs = []
     slot = 0
     for pid in ids:
-        for k in range(1, 19):
+        for k in range(1, 25):
             jobs.append((pid, k, slot % 8))
             slot += 1
     # run 8 at a time, one worktree per slot (jobs of a slot are sequential)
